@@ -159,4 +159,32 @@ def exTable : State :=
 example : (gateFire exTable (some 0) true).2 = .opened ∧ (gateFire exTable (some 0) true).1.gameCount = 1 ∧
     (gateFire (close exTable) (some 0) true).2 = .nothing := by decide
 
+/-- with a continue interval the continue step is two happenings — `continueGame` up to arming the timer, and the delayed
+handler — and other calls may land in between; with nothing in between they are the one-piece step -/
+theorem C07_continue_is_reset_then_tick (s : State) (ex : Bool) (hok : (continueGame s ex).2 ≠ .failed) :
+    step (step s .contReset) (.tick ex) = step s (.continue ex) := by
+  show (nextMove (continueGame s true).1 ex).1 = (continueGame s ex).1
+  unfold continueGame at hok ⊢
+  cases hr : refreshPlayers s.sm s.players with
+  | none => simp [hr] at hok
+  | some r =>
+    obtain ⟨sm, ps⟩ := r
+    simp only
+    have : (nextMove { resetHand s with sm := sm, players := ps } true) = ({ resetHand s with sm := sm, players := ps }, .nothing) := by
+      unfold nextMove; simp
+    rw [this]
+
+/-- **C07 — a table closed or released inside the continue interval is left alone by the delayed handler**: it neither
+pauses the table nor sets the next hand up, whatever the players' chips and the blind level -/
+theorem C07_closed_in_the_interval (s : State) (ex : Bool) :
+    step (step s .close) (.tick ex) = step s .close ∧ step (step s .release) (.tick ex) = step s .release := by
+  constructor
+  · show (nextMove (close s) ex).1 = close s
+    unfold nextMove close; cases ex <;> simp
+  · show (nextMove (release s) ex).1 = release s
+    unfold nextMove release
+    cases ex
+    · by_cases hc : (s.status == Status.closed) = true <;> simp [hc]
+    · simp
+
 end TB
